@@ -3,6 +3,7 @@ import OV.Lemmas.C01Names
 import OV.Lemmas.C01Sim
 import OV.Lemmas.C01SimIf
 import OV.Lemmas.C01SimFor
+import OV.Lemmas.C01SimNest
 import OV.Model.C01Env
 /-!
 # C01 — script functions mean the same eagerly, as an ONNX graph, and as plain Python
@@ -18,7 +19,8 @@ The property itself is the refinement
 (`convert_correct_partial`), for assignments with `if`/`else` nested to any depth
 (`convert_correct_ite_partial`), and for those plus top-level `for i in range(n)` and `while t` loops with or
 without a trailing `if b: break` (`convert_correct_for_partial`: loop-carried state, captured outer values, zero
-trips; by induction on the trip count resp. the fuel).  In general it is still **false for the code as it is**: `castable_lost_at_if_witness` (C01-D24).
+trips; by induction on the trip count resp. the fuel), and for loops nested in loops and branches to any depth
+(`convert_correct_nested_partial`).  In general it is still **false for the code as it is**: `castable_lost_at_if_witness` (C01-D24).
 Fixed in /repo, the model follows: C01-D23 / D25 (4304e8f / 87ad64d; regression examples), C01-D31 (9b326d7:
 `loop_variable_live_after_loop_refused`), C01-D33 (9f69276: `non_last_return_refused`), C01-D27 (ddfea30:
 `while_break_keeps_condition_witness`), C01-D39 (0fa00ae: `while_does_not_capture_infinite_loop_witness`).
@@ -32,7 +34,7 @@ What *is* proved, for all inputs and all operator meanings:
                                    special case;
 * the refutation and the regression witnesses above, each from a concrete program that is replayed on the real
   converter (harness/corpus_c01.jsonl).
-For nested loops (and loops inside branches) the equivalence of source and emitted graph on the generated stream
+For loops with `break` below the top level and attribute parameters the equivalence of source and emitted graph on the generated stream
 is *tested* (eager vs onnxruntime vs NumPy interpreter), not proved.
 -/
 namespace OV.Props.C01
@@ -269,6 +271,104 @@ example : forLine forBrkDemo.body = true ∧ (convert forBrkDemo).toOption.isSom
   refine ⟨by decide +kernel, by decide +kernel, by decide +kernel, by decide +kernel, by decide +kernel,
     by decide +kernel⟩
 
+/-! ### The refinement, fourth stage: loops nested in loops and branches -/
+
+/-- **`convert_correct`, stage 4 (loops nested in loops and branches, to any depth).**  For every function whose
+body consists of statements of the nested-loop fragment `nestStmt` — assignments and parallel assignments of
+tensor-valued expressions, tuple assignments `x, y = op.Foo(…)` from a multi-output operator, `if`/`else`, `for i in range(<expr>)` and `while t` loops, **nested in each other to any
+depth** (a loop in a loop body, a loop in a branch, a branch in a loop, …) — or of the stage-3 fragment (top-level
+loops over `if`-fragment bodies, where a trailing `if b: break` is allowed), followed by `return e1, …, en`:
+whenever the model converter accepts it and reading the source as plain Python yields `vs`, the emitted graph —
+`Loop` nodes whose body graphs contain `Loop` and `If` nodes reading values of all enclosing scopes — evaluates to
+exactly `vs` at some fuel (hence at every larger one), for every input, all trip counts (zero trips of an inner
+loop in a later outer iteration included) and every operator meaning satisfying the hypotheses of stage 3.
+Proof: `OV/Lemmas/C01SimNest.lean`.  The simulations of one loop (`for_step`, `while_core`) are parametric in
+what they need to know about the loop body (`BodyFacts`: how it runs, that its translation simulates it at every
+large enough fuel, castable bookkeeping, no top-level `break`, and three liveness facts relating live-in sets to
+the *exposed uses* from which `loop_state_vars` is computed); `nestBlock_sim` establishes these facts for every
+block of the fragment by mutual structural recursion, the liveness facts by induction on the analysis' own
+fixpoint iterations (`nestStmt_mono`, `nestStmt_toExp`, `nestStmt_ofExp`), for which the fixpoints need to be
+reached only at the live-out sets the analysis itself computes.
+Side conditions (`nestStmt`), per loop at its own live-out set: those of stage 3 (`for` variable not assigned in
+the body, `while` condition variable loop-carried or recomputed before any read, liveness fixpoint reached), and —
+listed explicitly although acceptance implies it (`loop_variable_live_after_loop_refused`) — the `for` variable
+not live after its loop.
+`_partial`: a trailing `break` only in top-level loops over `if`-fragment bodies; no attribute parameters. -/
+theorem convert_correct_nested_partial {V : Type} (S : Sem V)
+    (hConst : ∀ l, ∃ c, constOf S l = some c)
+    (hId : ∀ v, S.op "" "Identity" [some v] [] = some [v])
+    (hT : S.truth (S.ofBool true) = some true)
+    (hNot : ∀ v b, S.truth v = some b → ∃ w, S.op "" "Not" [some v] [] = some [w] ∧ S.truth w = some (!b))
+    (hAnd : ∀ x y yb, S.truth y = some yb → ∃ w, S.op "" "And" [some x, some y] [] = some [w] ∧
+      (yb = false → S.truth w = some false) ∧ (yb = true → S.truth w = S.truth x))
+    (f : Func) (g : Graph) (hnl : nestLine f.body = true) (hten : AllTensorParams f.params)
+    (hnames : (f.params.map Param.name).Nodup) (h : convert f = .ok g)
+    (fuel : Nat) (args vs : List V) (he : evalFunc S fuel f args = some vs) :
+    ∃ fuel', evalGraph S fuel' g args = some vs :=
+  convert_correct_nest S hConst hId hT hNot hAnd hnl hten hnames h he
+
+/-- Non-vacuity: a loop in a loop (the inner trip count `rem` shrinks to zero in later outer iterations, `t` is
+only assigned by the inner loop and read after it), an `if` in the inner loop, and a loop in a branch:
+`acc = A; t = B; rem = n; for i in range(n): (for j in range(rem): if c: t = acc + j else: t = t + A); acc = acc + t;
+rem = rem + m; if c: (for k in range(n): acc = acc + A) else: acc = acc + B; return acc, t` with `m = -1`. -/
+def nestDemo : Func :=
+  { name := "f", params := [.tensor "A", .tensor "B", .tensor "n", .tensor "c", .tensor "m"], retCount := none,
+    body := [
+      .assign "acc" (.var "A"),
+      .assign "t" (.var "B"),
+      .assign "rem" (.var "n"),
+      .for_ "i" true (.var "n")
+        [.for_ "j" true (.var "rem")
+           [.ite (.var "c")
+              [.assign "t" (.binop "Add" (.var "acc") (.var "j"))]
+              [.assign "t" (.binop "Add" (.var "t") (.var "A"))]],
+         .assign "acc" (.binop "Add" (.var "acc") (.var "t")),
+         .assign "rem" (.binop "Add" (.var "rem") (.var "m"))],
+      .ite (.var "c")
+        [.for_ "k" true (.var "n") [.assign "acc" (.binop "Add" (.var "acc") (.var "A"))]]
+        [.assign "acc" (.binop "Add" (.var "acc") (.var "B"))],
+      .ret [.var "acc", .var "t"] false] }
+
+example : nestLine nestDemo.body = true ∧ forLine nestDemo.body = false
+    ∧ (convert nestDemo).toOption.isSome = true
+    ∧ (match convert nestDemo, evalFunc Sdemo 0 nestDemo [1, 10, 3, 1, -1],
+             evalFunc Sdemo 0 nestDemo [1, 10, 3, 0, -1], evalFunc Sdemo 0 nestDemo [1, 10, 0, 1, -1] with
+       | .ok g, some r1, some r2, some r3 =>
+         evalGraph Sdemo 12 g [1, 10, 3, 1, -1] == some r1 && evalGraph Sdemo 12 g [1, 10, 3, 0, -1] == some r2
+           && evalGraph Sdemo 12 g [1, 10, 0, 1, -1] == some r3
+       | _, _, _, _ => false) = true := by
+  refine ⟨by decide +kernel, by decide +kernel, by decide +kernel, by decide +kernel⟩
+
+/-- Operators over `Int` with a two-output operator (`Dup a = (a, a + 1)`). -/
+def S2 : Sem Int where
+  op := fun _ name ins _ =>
+    match name, ins with
+    | "Dup", [some a] => some [a, a + 1]
+    | "Add", [some a, some b] => some [a + b]
+    | "Identity", [some a] => some [a]
+    | _, _ => none
+  truth := fun v => some (v ≠ 0)
+  natOf := fun v => some v.toNat
+  ofNat := fun n => Int.ofNat n
+  ofBool := fun b => if b then 1 else 0
+
+/-- Non-vacuity of the tuple-assignment part: `for i in range(n): x, y = Dup(acc); acc = x + y; return acc`. -/
+def tupleDemo : Func :=
+  { name := "f", params := [.tensor "A", .tensor "n"], retCount := none,
+    body := [
+      .assign "acc" (.var "A"),
+      .for_ "i" true (.var "n")
+        [.tuple ["x", "y"] (.call "" "Dup" { known := false, variadic := false, homog := false, tvs := [] } [.var "acc"] []),
+         .assign "acc" (.binop "Add" (.var "x") (.var "y"))],
+      .ret [.var "acc"] false] }
+
+example : nestLine tupleDemo.body = true ∧ forLine tupleDemo.body = false
+    ∧ evalFunc S2 0 tupleDemo [1, 3] = some [15]
+    ∧ (match convert tupleDemo with
+       | .ok g => evalGraph S2 8 g [1, 3] == some [15]
+       | .error _ => false) = true := by
+  refine ⟨by decide +kernel, by decide +kernel, by decide +kernel, by decide +kernel⟩
+
 /-! ### The names a script function reads from its surroundings (`script()`: closure variables, then module globals) -/
 
 /-- **`env_lookup_closure_first`.**  `script()` hands the converter `env = module.__dict__` updated with
@@ -296,7 +396,8 @@ theorem assigned_name_never_resolved (nonlocals globals : List (Name × Lit)) (f
     rcases hx with h | h
     · exact mem_vunion.mpr (Or.inr h)
     · exact mem_vunion.mpr (Or.inl (mem_vofList.mpr h))
-  simp [substExpr, List.contains_iff_mem.mpr hb]
+  simp only [substExpr, List.contains_iff_mem]
+  rw [if_pos hb]
 
 /-- The right operand of the returned product, if it is a float literal. -/
 def retFactor : List Stmt → Option String
